@@ -7,6 +7,7 @@ import (
 	"path/filepath"
 	"sort"
 	"strings"
+	"time"
 )
 
 // Crash points of a goleveldb store.
@@ -70,7 +71,42 @@ func journalRecordEnds(data []byte, from int) ([]int, error) {
 
 type dirSnap map[string][]byte
 
+// snapDir reads every file of an OPEN database directory. goleveldb flushes and compacts in the background: a table file
+// listed a moment ago may be gone (replaced by its compaction) when it is read. Then the directory was caught in the middle
+// of that change and is read again, until two listings in a row agree with what was read.
 func snapDir(dir string) (dirSnap, error) {
+	var lastErr error
+	for attempt := 0; attempt < 40; attempt++ {
+		s, err := snapDirOnce(dir)
+		if err == nil {
+			// stable: the listing after the read names the same files
+			if again, err2 := os.ReadDir(dir); err2 == nil {
+				same := true
+				n := 0
+				for _, e := range again {
+					if e.IsDir() || e.Name() == "LOCK" {
+						continue
+					}
+					n++
+					if _, ok := s[e.Name()]; !ok {
+						same = false
+					}
+				}
+				if same && n == len(s) {
+					return s, nil
+				}
+			}
+		} else if !os.IsNotExist(err) {
+			return nil, err
+		} else {
+			lastErr = err
+		}
+		time.Sleep(25 * time.Millisecond)
+	}
+	return nil, fmt.Errorf("the database directory %s keeps changing under the snapshot (%v)", dir, lastErr)
+}
+
+func snapDirOnce(dir string) (dirSnap, error) {
 	s := dirSnap{}
 	ents, err := os.ReadDir(dir)
 	if err != nil {
